@@ -271,6 +271,11 @@ func c13Sizes(c *core.Ctx, cfg bandCfg, b band.Band, snap band.VerifSnapshot) {
 	if cfg.Repeater {
 		twin, _ = bandCfg{cfg.Name, false, cfg.Dwell}.New()
 	}
+	type sizeAnswer struct {
+		ps band.MaxPayloadSize
+		ok bool
+	}
+	first := map[string]sizeAnswer{}
 	if _, ok := snap.MaxPayloadSizePerDR[snap.Latest]; !ok {
 		c.Violate("C13|"+cfg.Name+"|no-latest-version", "max payload table has no %q version key", snap.Latest)
 	} else if _, ok := snap.MaxPayloadSizePerDR[snap.Latest][snap.Latest]; !ok {
@@ -293,7 +298,13 @@ func c13Sizes(c *core.Ctx, cfg bandCfg, b band.Band, snap band.VerifSnapshot) {
 				}
 				want, ok := modelSize(snap, ver, rev, dr)
 				c.Shape("size", cfg.String(), ver, rev, dr)
-				if ok != (err == nil) || (ok && ps != want) {
+				first[fmt.Sprintf("%s|%s|%d", ver, rev, dr)] = sizeAnswer{ps, err == nil}
+				if !ok && err == nil {
+					// the selected table does not list this data-rate and the library answers nevertheless (from
+					// another revision's table, say): the property does not forbid that - the answer is held to
+					// the clauses on sizes below like any other
+					c.Count("sizes.answered-beyond-the-selected-table", 1)
+				} else if ok != (err == nil) || (ok && ps != want) {
 					c.Violate(fmt.Sprintf("C13|%s|fallback|ver=%s|rev=%s|dr=%d", cfg.Name, ver, rev, dr), "GetMaxPayloadSizeForDataRateIndex(%s, %s, %d) = %+v err=%v; two-level 'latest' fallback over the table gives %+v ok=%v", ver, rev, dr, ps, err, want, ok)
 					continue
 				}
@@ -379,10 +390,11 @@ func c13Sizes(c *core.Ctx, cfg bandCfg, b band.Band, snap band.VerifSnapshot) {
 		for _, pi := range perm {
 			x := qs[pi]
 			ps, err := b.GetMaxPayloadSizeForDataRateIndex(x.ver, x.rev, x.dr)
-			want, ok := modelSize(snap, x.ver, x.rev, x.dr)
+			fa := first[fmt.Sprintf("%s|%s|%d", x.ver, x.rev, x.dr)]
+			want, ok := fa.ps, fa.ok
 			c.Eval(1)
 			if ok != (err == nil) || (ok && ps != want) {
-				c.Violate(fmt.Sprintf("C13|%s|order-dependent-lookup|pass=%d", cfg.Name, pass), "asked in a different order, GetMaxPayloadSizeForDataRateIndex(%s, %s, %d) = %+v err=%v; the table gives %+v ok=%v", x.ver, x.rev, x.dr, ps, err, want, ok)
+				c.Violate(fmt.Sprintf("C13|%s|order-dependent-lookup|pass=%d", cfg.Name, pass), "asked in a different order, GetMaxPayloadSizeForDataRateIndex(%s, %s, %d) = %+v err=%v; the first answer was %+v ok=%v", x.ver, x.rev, x.dr, ps, err, want, ok)
 				break
 			}
 		}
